@@ -736,6 +736,10 @@ func c05r2(rc *core.RC) {
 				}
 				for _, c := range cs {
 					if callsValidator(c) {
+						if !callerValidatesEverySuccess(p, c, f, validators) {
+							why = p.FuncName(c) + " (it calls a validator, but a success return behind the scan is reached without passing the call: a fast path in front of it)"
+							return false
+						}
 						continue
 					}
 					cobj, _ := p.Info(c).Defs[c.Name].(*types.Func)
@@ -1359,6 +1363,96 @@ func validatorGuardsSuccess(p *core.Program, fd *ast.FuncDecl, validators map[st
 			continue
 		}
 		if !dominated(rb) {
+			return false
+		}
+	}
+	return true
+}
+
+// callerValidatesEverySuccess: in a function that receives a number token from the scanner `scan` and calls a
+// validator, every success return that can be reached behind the scanner call passes a validator call, except the
+// returns for the nil token (the literal null: `if tok == nil { return … }`).
+func callerValidatesEverySuccess(p *core.Program, fd *ast.FuncDecl, scan *types.Func, validators map[string]bool) bool {
+	info := p.Info(fd)
+	cf := core.BuildCFG(fd.Body, info)
+	blockOfPos := func(pos, end token.Pos) *cfg.Block {
+		for _, b := range cf.G.Blocks {
+			for _, nd := range b.Nodes {
+				if nd.Pos() <= pos && end <= nd.End() {
+					return b
+				}
+			}
+		}
+		return nil
+	}
+	var vblocks, scanBlocks []*cfg.Block
+	toks := map[types.Object]bool{}
+	ast.Inspect(fd.Body, func(m ast.Node) bool {
+		switch x := m.(type) {
+		case *ast.CallExpr:
+			if validators[core.CalleeName(info, x)] && !underShortCircuit(fd.Body, x) {
+				if b := blockOfPos(x.Pos(), x.End()); b != nil {
+					vblocks = append(vblocks, b)
+				}
+			}
+			if f := core.Callee(info, x); f != nil && f.Origin() == scan {
+				if b := blockOfPos(x.Pos(), x.End()); b != nil {
+					scanBlocks = append(scanBlocks, b)
+				}
+			}
+		case *ast.AssignStmt:
+			if len(x.Rhs) == 1 {
+				if c, ok := core.Unparen(x.Rhs[0]).(*ast.CallExpr); ok {
+					if f := core.Callee(info, c); f != nil && f.Origin() == scan {
+						for _, l := range x.Lhs {
+							if o := core.ObjOf(info, l); o != nil && o.Type().String() == "[]byte" {
+								toks[o] = true
+							}
+						}
+					}
+				}
+			}
+		}
+		return true
+	})
+	if len(scanBlocks) == 0 || len(vblocks) == 0 {
+		return len(scanBlocks) == 0
+	}
+	reach := map[*cfg.Block]bool{}
+	for _, sb := range scanBlocks {
+		for b := range cf.ReachableFrom(sb, nil) {
+			reach[b] = true
+		}
+	}
+	for _, r := range cf.Returns() {
+		if core.ReturnIsError(info, r) {
+			continue
+		}
+		rb, _ := cf.BlockOf(r)
+		if rb == nil || !reach[rb] {
+			continue
+		}
+		// the return for the nil token
+		forNil := false
+		for _, cn := range condChainNodes(fd, r) {
+			be, ok := core.Unparen(cn.cond).(*ast.BinaryExpr)
+			if !ok || !cn.pos || be.Op != token.EQL {
+				continue
+			}
+			if (toks[core.ObjOf(info, be.X)] && core.IsNilIdent(info, be.Y)) || (toks[core.ObjOf(info, be.Y)] && core.IsNilIdent(info, be.X)) {
+				forNil = true
+			}
+		}
+		if forNil {
+			continue
+		}
+		ok := false
+		for _, vb := range vblocks {
+			if vb == rb || cf.Dominates(vb, rb) {
+				ok = true
+			}
+		}
+		if !ok {
 			return false
 		}
 	}
